@@ -261,13 +261,32 @@ impl StackFrame {
 }
 // the excess-argument record parked below the function by the call protocol: data_value(0, fields)
 pub struct ExcessData { pub fields: Vec<Value> }
+pub uninterp spec fn is_data0(v: Value) -> bool;             // v is a (tag 0) data value
+pub uninterp spec fn data_fields(v: Value) -> Seq<Value>;    // its fields
+// what the call protocol parks is such a value (data_value is a constructor: ASSUMED injective on its fields)
+#[verifier::external_body]
+pub proof fn axiom_data_value_fields(fs: Seq<Value>)
+    ensures is_data0(data_value(0, fs)), data_fields(data_value(0, fs)) == fs
+{}
 pub enum ReprView { Data(ExcessData), Other }
 // `transfer!(context, &context.stack[i]).get_repr()`: looks at the value in frame slot i
 #[verifier::external_body]
 pub fn frame_slot_repr(sf: &StackFrame, i: VmIndex) -> (r: ReprView)
     requires sf.wf(), i < sf@.len()
-    ensures r is Data ==> sf@[i as int] == data_value(0, r->Data_0.fields@),
-            (exists|fs: Seq<Value>| #[trigger] data_value(0, fs) == sf@[i as int]) ==> r is Data,
+    ensures r is Data == is_data0(sf@[i as int]), r is Data ==> r->Data_0.fields@ == data_fields(sf@[i as int]),
 { unimplemented!() }
 // the continuation `context.do_call(n)`: opaque
 pub struct ReturnOutcome { pub ctx: ExecuteContext, pub calls_excess: Option<VmIndex>, pub stack_exists: bool }
+
+// ---- TailCall arm
+impl StackFrame {
+    // StackFrame::excess_args(): the record parked directly below the function slot of this frame, if it is a data value
+    // (real body: `match self.stack.values[len - self.len() - 2].get_repr() { Data(d) => Some(d), _ => None }`)
+    #[verifier::external_body]
+    pub fn excess_args(&self) -> (r: Option<ExcessData>)
+        requires self.wf(), self.frame.offset >= 2
+        ensures r is Some == is_data0(self.stack.values@[self.frame.offset - 2]),
+                r is Some ==> r->Some_0.fields@ == data_fields(self.stack.values@[self.frame.offset - 2]),
+    { unimplemented!() }
+}
+pub struct TailOutcome { pub ctx: ExecuteContext, pub calls: VmIndex }
